@@ -2,4 +2,4 @@ From Coq Require Extraction ExtrOcamlBasic.
 From GVgen Require Import InstrGen InstrCodecGen.
 From GV Require Import VM.Codec.
 Extraction Language OCaml.
-Extraction "model.ml" enc_fn decode_fn wf_fnb prefixes_fail instr_table instr_build shape_tys.
+Extraction "model.ml" enc_fn decode_fn wf_fnb refs_ok prefixes_fail instr_table instr_build shape_tys.
